@@ -15,6 +15,8 @@ let () =
     | "request" -> M_request.handle
     | "doc" -> M_doc.handle
     | "syntax" -> M_syntax.handle
+    | "main" -> M_main.handle
+    | "fileset" -> M_files.handle
     | _ -> prerr_endline ("unknown component " ^ comp); exit 2 in
   let out = Buffer.create 65536 in
   (try while true do
